@@ -34,16 +34,16 @@ benign('C20', 'kwargs elif chain as nested else', BP, '        elif isinstance(g
 # ------------------------------------------------------------------ C19
 mutant('C19', 'regress-F10 delim_whitespace', LOG, "sep=r'\\s+'", 'delim_whitespace=True', 'API-COMPAT')
 mutant('C19', 'regress-F10 DataFrame.append', LOG, 'pd.concat([performance.columns.to_frame().T, performance], ignore_index=True)', 'performance.columns.to_frame().T.append(performance,ignore_index=True)', 'API-COMPAT')
-mutant('C19', 'header off by one', LOG, 'thermo_headers.append(i+1)', 'thermo_headers.append(i)', 'LINE-ACCOUNT')
-mutant('C19', 'footer off by one', LOG, 'thermo_footers.append(i-1)', 'thermo_footers.append(i)', 'LINE-ACCOUNT')
-mutant('C19', 'counter counts blank lines', LOG, "                if len(line.split()) == 0:\n                    continue\n", "                if len(line.split()) == 0:\n                    i += 1\n                    continue\n", 'LINE-ACCOUNT')
-mutant('C19', 'blank lines no longer skipped by pandas', LOG, "sep=r'\\s+',\n                                skip_blank_lines=True", "sep=r'\\s+',\n                                skip_blank_lines=False", 'LINE-ACCOUNT')
-mutant('C19', 'nrows one short', LOG, "nrows=footer-header,\n                                sep=r'\\s+'", "nrows=footer-header-1,\n                                sep=r'\\s+'", 'LINE-ACCOUNT')
-mutant('C19', 'no final footer for truncated logs', LOG, '            thermo_footers.append(i)\n', '            pass\n', 'LINE-ACCOUNT')
-mutant('C19', 'one memory banner dropped', LOG, "thermo_start_trigger = ['Memory usage per processor =',\n                             'Per MPI rank memory allocation (min/avg/max) =']", "thermo_start_trigger = ['Per MPI rank memory allocation (min/avg/max) =']", 'TRIGGERS')
+mutant('C19', 'header off by one', LOG, 'thermo_headers.append(i+1)', 'thermo_headers.append(i)', 'READ')
+mutant('C19', 'footer off by one', LOG, 'thermo_footers.append(i-1)', 'thermo_footers.append(i)', 'READ')
+mutant('C19', 'counter counts blank lines', LOG, "                if len(line.split()) == 0:\n                    continue\n", "                if len(line.split()) == 0:\n                    i += 1\n                    continue\n", 'READ')
+mutant('C19', 'blank lines no longer skipped by pandas', LOG, "sep=r'\\s+',\n                                skip_blank_lines=True", "sep=r'\\s+',\n                                skip_blank_lines=False", 'READ')
+mutant('C19', 'nrows one short', LOG, "nrows=footer-header,\n                                sep=r'\\s+'", "nrows=footer-header-1,\n                                sep=r'\\s+'", 'READ')
+mutant('C19', 'no final footer for truncated logs', LOG, '            thermo_footers.append(i)\n', '            pass\n', 'READ')
+mutant('C19', 'one memory banner dropped', LOG, "thermo_start_trigger = ['Memory usage per processor =',\n                             'Per MPI rank memory allocation (min/avg/max) =']", "thermo_start_trigger = ['Per MPI rank memory allocation (min/avg/max) =']", 'READ')
 mutant('C19', 'banner slice too short', LOG, "line[:8] == 'LAMMPS ('", "line[:7] == 'LAMMPS ('", 'TRIGGERS')
 mutant('C19', 'month table wrong', LOG, "'Sep': 9, 'Oct': 10", "'Sep': 9, 'Oct': 9", 'TRIGGERS')
-mutant('C19', 'version overwritten by later banner', LOG, " and self.lammps_version is None", "", 'TRIGGERS')
+mutant('C19', 'version overwritten by later banner', LOG, " and self.lammps_version is None", "", 'APPEND')
 mutant('C19', 'append=False keeps version', LOG, "            self.__simulations = []\n            self.__lammps_version = None\n", "            self.__simulations = []\n", 'APPEND')
 mutant('C19', 'performance offset after append', LOG, 'self.simulations[i+j].performance', 'self.simulations[i].performance', 'APPEND')
 mutant('C19', 'flatten first keeps duplicates', LOG, 'thermo[thermo.Step > merged_df.Step.max()]', 'thermo[thermo.Step >= merged_df.Step.max()]', 'FLATTEN')
